@@ -66,12 +66,29 @@ type ltCfg struct {
 	events int    // maximal number of events
 	frac   int64  // virtual time before the connection is created / connected (sub-second offset)
 	wide   bool   // thorough: additional time step inside the undetermined window
+	pf     bool   // subexp: the channel has presence and the presence backend fails every update once the subscription is established
+}
+
+// ltFailingPresence: the environment answer "the presence backend is down" (AddPresence errors).
+type ltFailingPresence struct {
+	PresenceManager
+	w *ltWorld
+}
+
+func (p ltFailingPresence) AddPresence(ch string, clientID string, info *ClientInfo) error {
+	if p.w.presenceDown {
+		return fmt.Errorf("presence: i/o timeout")
+	}
+	return p.PresenceManager.AddPresence(ch, clientID, info)
 }
 
 func (c ltCfg) name() string {
 	n := c.kind
 	if c.mode != "" {
 		n += "/" + c.mode
+	}
+	if c.pf {
+		n += "/presence-down"
 	}
 	return fmt.Sprintf("%s/ev%d/frac%dms/wide%v", n, c.events, c.frac/vMs, c.wide)
 }
@@ -96,6 +113,9 @@ func ltVariants(tier string) []vsched.Variant {
 		for _, m := range []string{"extend", "expired", "srvsub"} {
 			add(ltCfg{kind: "subexp-server", mode: m, events: 4}, 2, 100)
 		}
+		// the presence backend fails every periodic update of the channel: expiry must not depend on it
+		add(ltCfg{kind: "subexp-client", events: 3, pf: true}, 2, 100)
+		add(ltCfg{kind: "subexp-server", mode: "srvsub", events: 3, pf: true}, 2, 100)
 		return out
 	}
 	for _, frac := range []int64{0, 250 * vMs} {
@@ -110,6 +130,9 @@ func ltVariants(tier string) []vsched.Variant {
 		for _, m := range []string{"extend", "expired", "srvsub"} {
 			add(ltCfg{kind: "subexp-server", mode: m, events: 5, frac: frac}, 5, 280)
 		}
+		add(ltCfg{kind: "subexp-client", events: 4, frac: frac, pf: true}, 4, 280)
+		add(ltCfg{kind: "subexp-server", mode: "extend", events: 4, frac: frac, pf: true}, 4, 280)
+		add(ltCfg{kind: "subexp-server", mode: "srvsub", events: 4, frac: frac, pf: true}, 4, 280)
 	}
 	return out
 }
@@ -225,6 +248,8 @@ type ltWorld struct {
 	pingsDone   int
 	autoPong    bool
 
+	presenceDown bool
+
 	pong  ltPongModel
 	stale ltStaleModel
 	exp   ltExpModel
@@ -288,7 +313,7 @@ func (w *ltWorld) setup() {
 		c.OnSubscribe(func(e SubscribeEvent, cb SubscribeCallback) {
 			exp := w.unix() + ltTTL
 			w.exp.exp = exp
-			cb(SubscribeReply{Options: SubscribeOptions{ExpireAt: exp}, ClientSideRefresh: clientSide}, nil)
+			cb(SubscribeReply{Options: SubscribeOptions{ExpireAt: exp, EmitPresence: cfg.pf}, ClientSideRefresh: clientSide}, nil)
 		})
 		if strings.HasPrefix(cfg.kind, "subexp") && cfg.mode != "srvsub" {
 			c.OnSubRefresh(func(e SubRefreshEvent, cb SubRefreshCallback) {
@@ -309,6 +334,9 @@ func (w *ltWorld) setup() {
 			})
 		}
 	})
+	if cfg.pf {
+		n.SetPresenceManager(ltFailingPresence{PresenceManager: n.presenceManager, w: w})
+	}
 	if err := n.Run(); err != nil {
 		panic(err)
 	}
@@ -360,7 +388,7 @@ func (w *ltWorld) setup() {
 	if strings.HasPrefix(cfg.kind, "subexp") {
 		if cfg.mode == "srvsub" {
 			w.exp.exp = w.unix() + ltTTL
-			if err := w.cl.c.Subscribe(ltCh, WithExpireAt(w.exp.exp)); err != nil {
+			if err := w.cl.c.Subscribe(ltCh, WithExpireAt(w.exp.exp), WithEmitPresence(cfg.pf)); err != nil {
 				panic(err)
 			}
 		} else {
@@ -370,6 +398,7 @@ func (w *ltWorld) setup() {
 		if !w.cl.c.IsSubscribed(ltCh) {
 			panic("livetimers: not subscribed")
 		}
+		w.presenceDown = cfg.pf
 	}
 }
 
